@@ -96,6 +96,8 @@ class FakeSocket(object):
 
     def connect(self, address):
         self.connected_to = address
+        if isinstance(self.sim.connect_error, BaseException):
+            raise self.sim.connect_error
         if self.sim.connect_error is not None:
             raise self.sim.connect_error(errno.ECONNREFUSED, 'Connection refused')
 
